@@ -21,7 +21,7 @@ pub fn def() -> CheckDef {
         run,
         rule: "one drawn history (structure, whole-stream writes and reads, handle scripts, metadata with the sim clock pinned per step; <= 30 ops) is executed under: (a) plain SimDisk, twice; (b) SimDisk with dense chunking faults - every read/write transfer may be cut short at a drawn point (p=0.3 each) or fail with a spurious Interrupted (p=0.2); (c) std::io::Cursor<Vec<u8>> and (d) a real std::fs::File in a scratch directory, both behind a pass-through seam; (e) every max_buffer_size of the palette and (f) the other format version; (g) the path-based constructors: the final image stored in a real file and opened with cfb::open / open_rw and OpenOptions::[strict()][max_buffer_size(b)].open / open_rw (path) must expose exactly what open_with exposes for the same bytes and options (dump plus the count of one large read() per stream), and create(path) over an existing longer file followed by a fixed script must leave the bytes create_with leaves in memory. Oracle: (a)-(d) with equal version and buffer size: every API result identical and the final image byte-identical (under (b) no call may fail: each injected condition is one the Read/Write contracts allow); (e),(f): for scripts without single read()/write()/consume() calls all logical results and the final dumps are equal. sub_runs = executions. Non-trivial: >= 1 successful mutation and a chunking fault fired; distinct = distinct (seam log, final image) hash of the reference run.",
         assumptions: &["real file I/O goes to /verif/target/tmp and is removed afterwards; it is deterministic because the run is single-threaded"],
-        cpu_limit_s: 60,
+        cpu_limit_s: 300,
         fault_kinds: "F-SR short reads, F-SW short writes, F-EI interrupted calls (rate-based, dense); backends Cursor and std::fs::File",
         count_subruns: false,
         expect_probes: &[],
